@@ -266,6 +266,43 @@ example : (O12.pubsTo 1 (O12.flat (init {}) h12History)).map (fun m => (m.origin
 
 end Mochi.Broker
 
+/-! ### Non-vacuity of the generic order theorem for copies of QoS 1 (immediate: the subscriber has no Receive Maximum) -/
+namespace Mochi.Broker
+open Mochi.Topics
+
+/-- `s` (connection 1, MQTT 3.1.1: no Receive Maximum, so `notDeferred`) subscribes `a` at QoS 1; `p` (connection 2)
+    publishes `01` then `02` at QoS 1, a PINGREQ of `s` in between -/
+def h12History1 : List Op :=
+  [.connect 1 { ver := 4, id := [115] },
+   .recv 1 (.subscribe 1 0 [{ filter := [97], qos := 1 }]),
+   .connect 2 { ver := 4, id := [112] },
+   .recv 2 (.publish 1 false false 1 [97] [1] 0 none),
+   .recv 1 .pingreq,
+   .recv 2 (.publish 1 false false 2 [97] [2] 0 none)]
+
+theorem h12_singleton {α} (l : List α) (d : α) (h : l.length = 1) : l = [l.headD d] := by
+  match l, h with
+  | [x], _ => rfl
+
+/-- each publishing op writes `s` exactly one PUBLISH, a QoS 1 first transmission (dup 0), so
+    `C12_history_order_of_first_tx` applies: `01` before `02` on connection 1 -/
+theorem h12_order_qos1 : ∃ m₁ m₂ A B C,
+    (m₁.payload = [1] ∧ m₁.qos = 1 ∧ m₁.dup = false) ∧ (m₂.payload = [2] ∧ m₂.qos = 1 ∧ m₂.dup = false) ∧
+    O12.pubsTo 1 (O12.flat (init {}) h12History1) = A ++ m₁ :: B ++ m₂ :: C := by
+  have h₁ : O12.pubsTo 1 (step (run (init {}) (h12History1.take 3)) (.recv 2 (.publish 1 false false 1 [97] [1] 0 none))).2 =
+      [(O12.pubsTo 1 (step (run (init {}) (h12History1.take 3)) (.recv 2 (.publish 1 false false 1 [97] [1] 0 none))).2).headD {}] :=
+    h12_singleton _ _ (by decide)
+  have h₂ : O12.pubsTo 1 (step (run (init {}) (h12History1.take 5)) (.recv 2 (.publish 1 false false 2 [97] [2] 0 none))).2 =
+      [(O12.pubsTo 1 (step (run (init {}) (h12History1.take 5)) (.recv 2 (.publish 1 false false 2 [97] [2] 0 none))).2).headD {}] :=
+    h12_singleton _ _ (by decide)
+  obtain ⟨A, B, C, e⟩ := C12_history_order_of_first_tx (init {}) h12History1 3 5 _ _ 1 _ _ rfl rfl (by decide) h₁ h₂
+  exact ⟨_, _, A, B, C, by decide, by decide, e⟩
+
+example : (O12.pubsTo 1 (O12.flat (init {}) h12History1)).map (fun m => (m.payload, m.qos, m.id)) =
+    [([1], 1, 1), ([2], 1, 2)] := by decide
+
+end Mochi.Broker
+
 #print axioms Mochi.Broker.C12_history_order_partial
 #print axioms Mochi.Broker.C12_history_order_of_first_tx
 #print axioms Mochi.Broker.C12_per_op_single_copy
@@ -273,3 +310,4 @@ end Mochi.Broker
 #print axioms Mochi.Broker.C12_routing_immediate_any_qos
 #print axioms Mochi.Broker.C12_qos0_stream_order
 #print axioms Mochi.Broker.h12_order
+#print axioms Mochi.Broker.h12_order_qos1
